@@ -34,9 +34,18 @@ WireSpec.vos WireSpec.vok WireSpec.required_vos: WireSpec.v Base.vos Fields.vos 
 DecoderComplete.vo DecoderComplete.glob DecoderComplete.v.beautified DecoderComplete.required_vo: DecoderComplete.v Base.vo Fields.vo SrcFacts.vo Msg.vo Decoder.vo WireSpec.vo DecoderSafety.vo
 DecoderComplete.vio: DecoderComplete.v Base.vio Fields.vio SrcFacts.vio Msg.vio Decoder.vio WireSpec.vio DecoderSafety.vio
 DecoderComplete.vos DecoderComplete.vok DecoderComplete.required_vos: DecoderComplete.v Base.vos Fields.vos SrcFacts.vos Msg.vos Decoder.vos WireSpec.vos DecoderSafety.vos
+WireMsg.vo WireMsg.glob WireMsg.v.beautified WireMsg.required_vo: WireMsg.v Base.vo Fields.vo Msg.vo WireSpec.vo
+WireMsg.vio: WireMsg.v Base.vio Fields.vio Msg.vio WireSpec.vio
+WireMsg.vos WireMsg.vok WireMsg.required_vos: WireMsg.v Base.vos Fields.vos Msg.vos WireSpec.vos
+DecoderMsg.vo DecoderMsg.glob DecoderMsg.v.beautified DecoderMsg.required_vo: DecoderMsg.v Base.vo Fields.vo SrcFacts.vo Msg.vo Decoder.vo WireSpec.vo DecoderSafety.vo DecoderComplete.vo WireMsg.vo
+DecoderMsg.vio: DecoderMsg.v Base.vio Fields.vio SrcFacts.vio Msg.vio Decoder.vio WireSpec.vio DecoderSafety.vio DecoderComplete.vio WireMsg.vio
+DecoderMsg.vos DecoderMsg.vok DecoderMsg.required_vos: DecoderMsg.v Base.vos Fields.vos SrcFacts.vos Msg.vos Decoder.vos WireSpec.vos DecoderSafety.vos DecoderComplete.vos WireMsg.vos
 EncoderProofs.vo EncoderProofs.glob EncoderProofs.v.beautified EncoderProofs.required_vo: EncoderProofs.v Base.vo Fields.vo SrcFacts.vo Msg.vo Decoder.vo Encoder.vo WireSpec.vo DecoderSafety.vo DecoderComplete.vo
 EncoderProofs.vio: EncoderProofs.v Base.vio Fields.vio SrcFacts.vio Msg.vio Decoder.vio Encoder.vio WireSpec.vio DecoderSafety.vio DecoderComplete.vio
 EncoderProofs.vos EncoderProofs.vok EncoderProofs.required_vos: EncoderProofs.v Base.vos Fields.vos SrcFacts.vos Msg.vos Decoder.vos Encoder.vos WireSpec.vos DecoderSafety.vos DecoderComplete.vos
+EncoderMsg.vo EncoderMsg.glob EncoderMsg.v.beautified EncoderMsg.required_vo: EncoderMsg.v Base.vo Fields.vo SrcFacts.vo Msg.vo Decoder.vo Encoder.vo WireSpec.vo DecoderSafety.vo DecoderComplete.vo EncoderProofs.vo WireMsg.vo DecoderMsg.vo
+EncoderMsg.vio: EncoderMsg.v Base.vio Fields.vio SrcFacts.vio Msg.vio Decoder.vio Encoder.vio WireSpec.vio DecoderSafety.vio DecoderComplete.vio EncoderProofs.vio WireMsg.vio DecoderMsg.vio
+EncoderMsg.vos EncoderMsg.vok EncoderMsg.required_vos: EncoderMsg.v Base.vos Fields.vos SrcFacts.vos Msg.vos Decoder.vos Encoder.vos WireSpec.vos DecoderSafety.vos DecoderComplete.vos EncoderProofs.vos WireMsg.vos DecoderMsg.vos
 Cache.vo Cache.glob Cache.v.beautified Cache.required_vo: Cache.v Base.vo Fields.vo SrcFacts.vo Msg.vo SrcDecisions.vo
 Cache.vio: Cache.v Base.vio Fields.vio SrcFacts.vio Msg.vio SrcDecisions.vio
 Cache.vos Cache.vok Cache.required_vos: Cache.v Base.vos Fields.vos SrcFacts.vos Msg.vos SrcDecisions.vos
@@ -154,9 +163,9 @@ Properties_C17.vos Properties_C17.vok Properties_C17.required_vos: Properties_C1
 Properties_C08.vo Properties_C08.glob Properties_C08.v.beautified Properties_C08.required_vo: Properties_C08.v Base.vo Fields.vo SrcFacts.vo Msg.vo SrcDecisions.vo Sim.vo Hostname.vo HostnameProofs.vo HostnameInv.vo
 Properties_C08.vio: Properties_C08.v Base.vio Fields.vio SrcFacts.vio Msg.vio SrcDecisions.vio Sim.vio Hostname.vio HostnameProofs.vio HostnameInv.vio
 Properties_C08.vos Properties_C08.vok Properties_C08.required_vos: Properties_C08.v Base.vos Fields.vos SrcFacts.vos Msg.vos SrcDecisions.vos Sim.vos Hostname.vos HostnameProofs.vos HostnameInv.vos
-Properties_C01.vo Properties_C01.glob Properties_C01.v.beautified Properties_C01.required_vo: Properties_C01.v Base.vo Fields.vo SrcFacts.vo Msg.vo Decoder.vo Encoder.vo WireSpec.vo DecoderSafety.vo DecoderComplete.vo EncoderProofs.vo
-Properties_C01.vio: Properties_C01.v Base.vio Fields.vio SrcFacts.vio Msg.vio Decoder.vio Encoder.vio WireSpec.vio DecoderSafety.vio DecoderComplete.vio EncoderProofs.vio
-Properties_C01.vos Properties_C01.vok Properties_C01.required_vos: Properties_C01.v Base.vos Fields.vos SrcFacts.vos Msg.vos Decoder.vos Encoder.vos WireSpec.vos DecoderSafety.vos DecoderComplete.vos EncoderProofs.vos
-Properties_C02.vo Properties_C02.glob Properties_C02.v.beautified Properties_C02.required_vo: Properties_C02.v Base.vo Fields.vo SrcFacts.vo Msg.vo Decoder.vo WireSpec.vo DecoderSafety.vo DecoderComplete.vo
-Properties_C02.vio: Properties_C02.v Base.vio Fields.vio SrcFacts.vio Msg.vio Decoder.vio WireSpec.vio DecoderSafety.vio DecoderComplete.vio
-Properties_C02.vos Properties_C02.vok Properties_C02.required_vos: Properties_C02.v Base.vos Fields.vos SrcFacts.vos Msg.vos Decoder.vos WireSpec.vos DecoderSafety.vos DecoderComplete.vos
+Properties_C01.vo Properties_C01.glob Properties_C01.v.beautified Properties_C01.required_vo: Properties_C01.v Base.vo Fields.vo SrcFacts.vo Msg.vo Decoder.vo Encoder.vo WireSpec.vo DecoderSafety.vo DecoderComplete.vo EncoderProofs.vo WireMsg.vo DecoderMsg.vo EncoderMsg.vo
+Properties_C01.vio: Properties_C01.v Base.vio Fields.vio SrcFacts.vio Msg.vio Decoder.vio Encoder.vio WireSpec.vio DecoderSafety.vio DecoderComplete.vio EncoderProofs.vio WireMsg.vio DecoderMsg.vio EncoderMsg.vio
+Properties_C01.vos Properties_C01.vok Properties_C01.required_vos: Properties_C01.v Base.vos Fields.vos SrcFacts.vos Msg.vos Decoder.vos Encoder.vos WireSpec.vos DecoderSafety.vos DecoderComplete.vos EncoderProofs.vos WireMsg.vos DecoderMsg.vos EncoderMsg.vos
+Properties_C02.vo Properties_C02.glob Properties_C02.v.beautified Properties_C02.required_vo: Properties_C02.v Base.vo Fields.vo SrcFacts.vo Msg.vo Decoder.vo WireSpec.vo DecoderSafety.vo DecoderComplete.vo WireMsg.vo DecoderMsg.vo
+Properties_C02.vio: Properties_C02.v Base.vio Fields.vio SrcFacts.vio Msg.vio Decoder.vio WireSpec.vio DecoderSafety.vio DecoderComplete.vio WireMsg.vio DecoderMsg.vio
+Properties_C02.vos Properties_C02.vok Properties_C02.required_vos: Properties_C02.v Base.vos Fields.vos SrcFacts.vos Msg.vos Decoder.vos WireSpec.vos DecoderSafety.vos DecoderComplete.vos WireMsg.vos DecoderMsg.vos
